@@ -64,7 +64,7 @@ func instantiate(h *Term, skolems []*Term, out *[]*Term) {
 	}
 }
 
-func (ob *Obligation) smt(withModel bool) string {
+func (ob *Obligation) smt(withModel bool, filter bool) string {
 	var skolems []*Term
 	goal := stripForall(ob.Goal, &skolems)
 	hyps := append([]*Term(nil), ob.Hyps...)
@@ -77,7 +77,9 @@ func (ob *Obligation) smt(withModel bool) string {
 		}
 		hyps = append(hyps, extra...)
 	}
-	hyps = relevant(hyps, goal)
+	if filter {
+		hyps = relevant(hyps, goal)
+	}
 	vars := map[string]string{}
 	ufs := map[string]bool{}
 	for _, h := range hyps {
@@ -289,6 +291,7 @@ func discharge(obls []*Obligation, dir string, timeoutS int, agree bool, workers
 	var wg sync.WaitGroup
 	sem := make(chan struct{}, workers)
 	texts := make([]string, len(obls))
+	fullTexts := make([]string, len(obls)) // unfiltered query, used when the filtered one is not proved
 	for i, ob := range obls {
 		if ob.Status != "" {
 			continue
@@ -299,7 +302,10 @@ func discharge(obls []*Obligation, dir string, timeoutS int, agree bool, workers
 			ob.Backend = "simplifier"
 			continue
 		}
-		texts[i] = ob.smt(true)
+		texts[i] = ob.smt(true, true)
+		if len(ob.Hyps) >= 40 {
+			fullTexts[i] = ob.smt(true, false)
+		}
 		if ob.Kind != "batch" {
 			ob.Hyps = nil // release memory
 		}
@@ -357,6 +363,12 @@ func discharge(obls []*Obligation, dir string, timeoutS int, agree bool, workers
 				} else {
 					os.WriteFile(file, []byte(text), 0o644)
 					r, _ = solve(file, timeoutS, agree && ob.Expect == "unsat")
+					if ob.Expect == "unsat" && r.verdict != "unsat" && fullTexts[i] != "" && fullTexts[i] != text {
+						// the cone-of-influence filter may have dropped an inconsistency of the path
+						// condition (infeasible path): decide on the full hypothesis set
+						os.WriteFile(file, []byte(fullTexts[i]), 0o644)
+						r, _ = solve(file, timeoutS, agree)
+					}
 				}
 				solveMu.Lock()
 				solveCache[h] = r
